@@ -237,6 +237,7 @@ def run(program, res, tier):
         res.fail_at("C27-S3", pe, "pandas-restore-order", "the results are not re-sorted to the original positions between computing and re-attaching them")
     c18.typestate_rule(program, Relabel(res, {"*": "C27-S3"}), rule="C27-S3")
     c18.position_primitives_rule(program, Relabel(res, {"*": "C27-S3"}), rule="C27-S3")
+    c18.order_sensitive_functions_rule(program, Relabel(res, {"*": "C27-S3"}), rule="C27-S3")
     # S4 every store comes from the grouped frame
     if not stores:
         raise AnalysisError("Pandas _extend_step: windowed result stores not found")
